@@ -98,6 +98,14 @@ impl AttributeParser {
     }
 
     fn parse_group(&mut self, name: Ident, group: TokenStream) -> Nested {
+        // Consume the comma that separates this item from the next one, so that
+        // `name(...)` can be followed by further items just like `name = ...` can.
+        let unexpected = self.collect_tail(Empty);
+
+        if !unexpected.is_empty() {
+            return Nested::Unexpected(unexpected);
+        }
+
         Nested::Named(name, NestedValue::Group(group))
     }
 
